@@ -5,6 +5,8 @@
 (* read from VERIF_IN (the cases of the Lang suites, generated programs,    *)
 (* and the extra programs below):                                           *)
 (*                                                                           *)
+(*  (all three for accepted programs whose annotations are honest, see       *)
+(*   Static!HonestAnnotations; dishonest ones are reported, tag DISHONEST)    *)
 (*  TypeSound     a program accepted with type T never gets stuck, and if it *)
 (*                ends with a value v then v (cells by content, arrays by    *)
 (*                their hidden tag) is a member of T; every cell holds a     *)
@@ -44,7 +46,8 @@ Accepted(c, ty, r) ==
    member |-> IF r.sig = "ok" THEN MemberS(r.v, ty, r.st) ELSE TRUE,
    cells |-> IF Status(r) = "stuck" THEN TRUE ELSE CellsTyped(r.st),
    scoped |-> WellScoped(c.prog),
-   unbound |-> r.sig = "error" /\ IsUnbound(r.v)]
+   unbound |-> r.sig = "error" /\ IsUnbound(r.v),
+   honest |-> HonestAnnotations(c.prog)]
 Verdict(c, tp) ==
   IF IsRej(tp) THEN [acc |-> FALSE, id |-> c.id, neg |-> c.negative, why |-> tp.why]
   ELSE Accepted(c, tp.t, Run(c.prog, Fuel))
@@ -52,12 +55,13 @@ Judge(i) == Verdict(Cases[i], TypeProg(Cases[i].prog))
 
 Bad(tag) == PrintT(<<tag, ToJson(v)>>) /\ FALSE
 
-TypeSound == (row > 0 /\ v.acc) => \/ (v.status # "stuck" /\ v.member /\ v.cells)
+TypeSound == (row > 0 /\ v.acc /\ v.honest) => \/ (v.status # "stuck" /\ v.member /\ v.cells)
                                    \/ Bad("TYPESOUND")
-Progress == (row > 0 /\ v.acc) => v.status \in {"value", "error", "inconclusive"} \/ Bad("PROGRESS")
+Progress == (row > 0 /\ v.acc /\ v.honest) => v.status \in {"value", "error", "inconclusive"} \/ Bad("PROGRESS")
 SubjectNames == (row > 0 /\ v.acc) => (v.scoped /\ ~v.unbound) \/ Bad("SUBJECTNAMES")
 NegReport == (row > 0 /\ v.acc /\ v.neg) => PrintT(<<"NEGACC", ToJson(v)>>)
 PosReport == (row > 0 /\ ~v.acc /\ ~v.neg) => PrintT(<<"POSREJ", ToJson(v)>>)
+HonestReport == (row > 0 /\ v.acc /\ ~v.honest) => PrintT(<<"DISHONEST", ToJson(v)>>)
 
 Init == row = 0 /\ v = Nil
 Next == \/ row = 0 /\ row' \in {-c : c \in 1..Chunks} /\ v' = Nil
@@ -97,6 +101,23 @@ Extra == <<
     <<Set("f", If(Hide(WBool, B(TRUE)), IdF, FnE(<<P("a", WMulti(<<WInt, WFloat>>))>>, WFloat, <<Ret(F(3))>>))), CallE(V("f"), <<H(1)>>)>>),
   X("while-set-break-in-test", FALSE,
     <<WhileSet("x", WInt, Field(ModE(<<Set("q", H(1)), If1(Hide(WBool, B(TRUE)), Break)>>), "q"), Block(<<Break>>)), I(0)>>),
+  X("destruct-union-same-length", FALSE,
+    <<Destruct(<<"a", "b">>, If(Hide(WBool, B(TRUE)), TupE(<<H(1), H(2)>>), TupE(<<Hide(WFloat, F(3)), Hide(WStr, S(<<97>>))>>))), TupE(<<V("a"), V("b")>>)>>),
+  X("struct-duplicate-field", FALSE, <<Field(StructE(<<<<"a", H(1)>>, <<"a", Hide(WStr, S(<<97>>))>>>>), "a")>>),
+  X("params-duplicate-name", FALSE,
+    <<Set("f", FnE(<<P("a", WInt), P("a", WStr)>>, WStr, <<Ret(V("a"))>>)), CallE(V("f"), <<H(1), Hide(WStr, S(<<97>>))>>)>>),
+  X("return-nothing-in-int-or-void-fn", FALSE,
+    <<FnDecl("f", <<>>, WMulti(<<WInt, WVoid>>), <<If1(Hide(WBool, B(TRUE)), Ret0)>>), CallE(V("f"), <<>>)>>),
+  X("nested-return-types", FALSE,
+    <<FnDecl("f", <<>>, WStr, <<Set("g", FnE(<<>>, WInt, <<Ret(I(1))>>)), If1(Bin("==", CallE(V("g"), <<>>), I(2)), Ret(S(<<98>>))), Ret(S(<<97>>))>>), CallE(V("f"), <<>>)>>),
+  X("recursion-declared", FALSE,
+    <<FnDecl("f", <<P("n", WInt)>>, WInt, <<If1(Bin("<", V("n"), I(1)), Ret(I(0))), Ret(CallE(V("f"), <<Bin("-", V("n"), I(1))>>))>>), CallE(V("f"), <<H(2)>>)>>),
+  X("never-typed-call-ends-a-body", FALSE,
+    <<FnDecl("f", <<>>, WNever, <<Ret(CallE(V("f"), <<>>))>>), FnDecl("g", <<>>, WInt, <<CallE(V("f"), <<>>)>>), I(0)>>),
+  X("rej-return-nothing-in-int-fn", TRUE, <<FnDecl("f", <<>>, WInt, <<Ret0>>), I(0)>>),
+  \* named difference D8: the text of both is a function DECLARATION (the body sees f itself)
+  X("named-D8-literal-mentions-its-name", TRUE, <<Set("f", FnE(<<>>, WInt, <<Ret(CallE(V("f"), <<>>))>>)), I(0)>>),
+  X("named-D8-literal-mentions-outer-name", FALSE, <<Set("f", H(1)), Set("f", FnE(<<>>, WInt, <<Ret(V("f"))>>)), CallE(V("f"), <<>>)>>),
   \* witnesses of the named differences D1, D2, D5 (Static.tla): the implementation is more precise after folding
   X("named-D1-if-folding", FALSE, <<If(B(TRUE), Block(<<I(1)>>), Block(<<S(<<97>>)>>))>>),
   X("named-D2-at-folding", FALSE, <<At(ArrE(<<I(1), S(<<97>>)>>), I(0))>>),
